@@ -35,9 +35,11 @@ Section Spec.
 Variable c : cfg.
 
 (* the decision steps before the router-id step, in order: LLGR-stale last,
-   rank class (LOCAL_PREF / AS_PATH length / ORIGIN), eBGP over iBGP, GR-stale *)
+   rank class (LOCAL_PREF / AS_PATH length / ORIGIN), eBGP over iBGP, GR-stale,
+   shorter CLUSTER_LIST *)
 Definition tie_key (fl : flags) (e : entry) : list N :=
-  [b2n (e_llgr fl e); a_pref (e_attr e); b2n (snd (peer_info c (e_peer e))); b2n (e_stale fl e)].
+  [b2n (e_llgr fl e); a_pref (e_attr e); b2n (snd (peer_info c (e_peer e))); b2n (e_stale fl e);
+   a_clen (e_attr e)].
 
 Definition beats (fl : flags) (x e : entry) : bool :=
   match lcmp (tie_key fl x) (tie_key fl e) with Lt => true | _ => false end.
@@ -55,7 +57,9 @@ Definition fib_spec (fl : flags) (l : list entry) : list N :=
   nhs_of (ecmp_spec fl (selectable l)).
 
 (* a best path: selectable and not beaten under the full order (router id last) *)
-Definition full_key (fl : flags) (e : entry) : list N := tie_key fl e ++ [fst (peer_info c (e_peer e))].
+(* the last step: lower ORIGINATOR_ID, or router id of the session when absent (RFC 4456 s9) *)
+Definition full_key (fl : flags) (e : entry) : list N :=
+  tie_key fl e ++ [match a_oid (e_attr e) with Some o => o | None => fst (peer_info c (e_peer e)) end].
 Definition is_best (fl : flags) (l : list entry) (b : entry) : Prop :=
   In b (selectable l) /\
   forall x, In x (selectable l) -> lcmp (full_key fl b) (full_key fl x) <> Gt.
@@ -86,6 +90,17 @@ Definition wf_op (o : op) : bool :=
   match o with
   | DropPeer p | DropStale p | DropLlgr p | MarkLlgr p | MarkStale p => negb (p =? 0)
   | _ => true
+  end.
+
+(* restarting-speaker deferral of a family is started while the family holds no
+   route (daemon/src/event/mod.rs starts it at boot, before any session) *)
+Definition fam_empty (s : st) (f : N) : Prop := forall p, fst p = f -> d_l (s_get s p) = [].
+Definition op_ok (s : st) (o : op) : Prop :=
+  match o with StartDef f => fam_empty s f | _ => True end.
+Fixpoint run_ok (v : variant) (s : st) (ops : list op) : Prop :=
+  match ops with
+  | [] => True
+  | o :: t => op_ok s o /\ run_ok v (fst (step c v s o)) t
   end.
 
 End Spec.
